@@ -227,15 +227,30 @@ func (g *gen) file(leaves int, lastLen int) (string, []pent, []string) {
 	return "f", es, append([]string{"f"}, names...)
 }
 
-// altPos: a position below n to alter, never one of the span bytes 3..7 (an altered entry that a
-// changed GetChunkHashes lets through must not carry a span of 2^24.. bytes: the joiner would loop
-// span/C times, or for ever above 2^57 — see notes/C06.md)
+// altPos: a payload position below n (> 8) to alter — never a span byte: an altered entry that a changed
+// GetChunkHashes lets through must not carry a span larger than its payload (joiner.subtrieSection
+// spins for ever on a payload shorter than one reference, JoinReadAll loops span/C times — see
+// notes/C06.md); span alterations are generated by advPyramidCase, which only CLEARS a bit.
 func (g *gen) altPos(n int) int {
-	p := g.r.Intn(n)
-	if p >= 3 && p < 8 {
-		p = g.r.Intn(3)
+	if n <= 8 {
+		return 8
 	}
-	return p
+	return 8 + g.r.Intn(n-8)
+}
+
+// spanAlt: `pos:x` clearing one set bit of the low three span bytes (the altered span is smaller)
+func (g *gen) spanAlt(span int) string {
+	var bits []int
+	for b := 0; b < 24; b++ {
+		if span>>uint(b)&1 == 1 {
+			bits = append(bits, b)
+		}
+	}
+	if len(bits) == 0 {
+		return "8:1"
+	}
+	b := bits[g.r.Intn(len(bits))]
+	return fmt.Sprintf("%d:%d", b/8, 1<<uint(b%8))
 }
 
 func (g *gen) pyramidCase(multi bool) {
@@ -414,8 +429,12 @@ func (g *gen) advPyramidCase(leaves int, n int) {
 		switch r.Intn(10) {
 		case 0, 1, 2: // one payload byte of a reachable entry altered, key unchanged
 			set(o, "#"+victim, fmt.Sprintf("@%s^%d:%d", victim, r.Range(8, lenOf(victim)-1), bit()))
-		case 3: // one span byte of a reachable entry altered
-			set(o, "#"+victim, fmt.Sprintf("@%s^%d:%d", victim, r.Intn(3), bit())) // bytes 0..2: spans stay below 2^24 (a code change that lets such an entry through must not send the joiner into a 2^29-iteration read loop)
+		case 3: // one bit of the span of a reachable entry cleared (never a larger span, see altPos)
+			span := lenOf(victim) - 8
+			if victim == "f" && leaves > 1 {
+				span = (leaves-1)*C + last
+			}
+			set(o, "#"+victim, "@"+victim+"^"+g.spanAlt(span))
 		case 4: // intermediate root with two references swapped / one repeated (the walk still succeeds
 			// when both are full leaves); 1-leaf trees: root payload altered
 			if leaves >= 3 {
